@@ -1608,7 +1608,56 @@ class P(Prop):
             built = [None if N is None else self.readback(N, n, nid, inv, einv) for N in nets]
         return {"fam": out, "dicts": dicts, "nets": built}
 
+    def compare_famp(self, case, impl_out, reply):
+        """the Lean family model (ONE program on one common flag store, Model/GraphSharedPath.lean execFamP) against the real
+        objects: which nodes and edges every sub_network holds, in order; what every shortest_path returns. (Distances and
+        forward / backward passes are compared through the per-network sessions.)"""
+        if reply == "bad-request":
+            return "family program: bad-request"
+        items = reply.split("|")
+        _, where = self.fam_program(case)
+        if any("err" in o and o.get("err") == "member" for o in impl_out["fam"]) or any(op[0] == "X" and "err" in o for (k, op), o in zip(case["fops"], impl_out["fam"])):
+            return None       # a call on a network that does not exist (shrunk cases): the numbering of the networks differs
+        for j, ((k, op), x, w) in enumerate(zip(case["fops"], impl_out["fam"], where)):
+            if w is None or w >= len(items):
+                continue
+            y = items[w]
+            bad = "family program (Lean family model, one common flag store), call %d on network %d %s: impl=%s model=%s" % (j, k, op, x, y)
+            if op[0] == "X":
+                want = "s:%s/%s" % (",".join(str(v) for v in x["nodes"]) or "_", ",".join(str(i) for i in x["edges"]) or "_")
+                if y != want:
+                    return bad
+            elif op[0] == "P":
+                if "err" in x:
+                    if y != "err":
+                        return bad
+                    continue
+                if y == "err" or "@" not in y:
+                    return bad
+                p, label = y.split("@")
+                if label != x["label"]:
+                    return bad
+                if isinstance(x["p"], dict):
+                    if ":" not in p:
+                        return bad
+                    nodes, pts = p.split(":")
+                    q = [] if pts == "_" else pts.split(",")
+                    if [int(v) for v in nodes.split(",")] != x["p"]["path"] or [[q[i], q[i + 1]] for i in range(0, len(q), 2)] != x["p"]["xy"]:
+                        return bad
+                elif p != x["p"]:
+                    return bad
+        return None
+
     def compare_fam(self, case, impl_out, model_out):
+        famp = None
+        if model_out and isinstance(model_out[-1], dict) and "famp" in model_out[-1]:
+            famp, model_out = model_out[-1]["famp"], model_out[:-1]
+        m = self.compare_fam_sessions(case, impl_out, model_out)
+        if m is None and famp is not None:
+            m = self.compare_famp(case, impl_out, famp)
+        return m
+
+    def compare_fam_sessions(self, case, impl_out, model_out):
         members, where, _ = fam_split(case)
         got = [o for (k, op), o in zip(case["fops"], impl_out["fam"]) if op[0] == "X"]
         if len(impl_out["fam"]) != len(case["fops"]) or len(model_out) != len(members):
@@ -1673,9 +1722,44 @@ class P(Prop):
                 yield dict(case, lines=case["lines"][:k] + [[l[0], l[-1]]] + case["lines"][k + 1:])
 
     # ---------------------------------------------------------------- model
+    def fam_program(self, case):
+        """the family as ONE program for the Lean family model (Model/GraphShared.lean + Model/GraphSharedPath.lean: one common
+        flag store, sub_network's kept edges computed by the model): the driver request, and per fop the index of its output
+        (None: the op is not sent — run_routing_backward, which the family model does not have)"""
+        flat = lambda pts: ",".join("%d,%d" % (x, y) for (x, y) in pts) if pts else "e"
+        edges = nc.expand(case)
+        pos = ";".join(flat([p]) for p in case["pos"]) if case["pos"] else "_"
+        lines = ";".join(flat(l) for l in case["lines"]) if case["lines"] else "_"
+        calls = build_calls(case)
+        ops = ["0:c"] + ["0:n,%d" % v for (v, _, _) in calls["pre"]]
+        ops += ["0:e,%d,%d,%d,%s,%d" % (i, s_, t_, nc.tok(nc.num(w)), o) for (i, s_, t_, w, o) in edges]
+        ops += ["0:n,%d" % v for (v, _, _) in calls["post"]]
+        where = []
+        for (k, o) in case["fops"]:
+            c = o[3] if o[0] in "PDF" else (o[2] if o[0] == "X" else None)
+            if o[0] == "P":
+                tok_ = "P,%d,%d,%s" % (idx(o[1]), idx(o[2]), c)
+            elif o[0] == "X":
+                tok_ = "x,%d,%s" % (idx(o[1]), c)
+            elif o[0] == "W":
+                tok_ = "W,%d,%s" % (o[1], nc.tok(nc.num(o[2])))
+            elif o[0] == "D" and o[2] == "-":
+                tok_ = "l,%d,%s,%d" % (idx(o[1]), c, 1 if o[4] else 0)
+            elif o[0] == "D":
+                tok_ = "d,%d,%d,%s,%d" % (idx(o[1]), idx(o[2]), c, 1 if o[4] else 0)
+            elif o[0] == "F":
+                tok_ = "r,%d,%s,%s,%d" % (idx(o[1]), "_" if o[2] == "-" else str(idx(o[2])), c, 1 if o[4] else 0)
+            else:
+                where.append(None)
+                continue
+            where.append(len(ops))
+            ops.append("%d:%s" % (k, tok_))
+        req = "C07.fampaths %d %s %s %s %d %s" % (case["n"], nc.edges_token(edges), pos, lines, 1 if case.get("af") else 0, ";".join(ops))
+        return req, where
+
     def requests(self, case):
         if case.get("fam"):
-            return [self.mut_requests(M)[0] for M in fam_split(case)[0] if M is not None and not self.fam_empty(M)]
+            return [self.mut_requests(M)[0] for M in fam_split(case)[0] if M is not None and not self.fam_empty(M)] + [self.fam_program(case)[0]]
         if case.get("mut"):
             return self.mut_requests(case)
         edges = nc.expand(case)
@@ -1802,6 +1886,7 @@ class P(Prop):
                     out.append({"ops": [], "dict": [], "net": {"next": [[] for _ in range(n)], "pos": [None] * n, "order": [], "edges": [], "geoms": []}})
                 else:
                     out.append(None if M is None else self.mut_decode(M, [next(it)]))
+            out.append({"famp": next(it)})      # the family as one program of the Lean family model
             return out
         if case.get("mut"):
             return self.mut_decode(case, replies)
@@ -1877,6 +1962,8 @@ class P(Prop):
             if nx["ends"] != want:
                 return "network as built: edges (id, source, target, orientation, ends are the registered nodes) %s, given %s" % (nx["ends"], want)
         tl = timeline(case, frozen_ori=True)      # model and implementation both route by NEXT_EDGES as addEdge filled it
+        sett = settings_timeline(case) if case.get("astar") else None
+        approx = False        # the last search was an A* search for a target with a heuristic that is not consistent
         view = [None]
 
         def dist():
@@ -1899,6 +1986,7 @@ class P(Prop):
                 continue
             if op[0] != "B":
                 last = (idx(op[1]), None if op[2] == "-" else idx(op[2]), cutval(op[3], fl))
+                approx = sett is not None and regime(case, view[0], op, sett[k]) == "approx"
             strict = op[0] == "B" and stale       # old flags on the content of now: nothing to validate, the model must agree
             if "p" not in x or "p" not in y:
                 if x == y:
@@ -1908,6 +1996,10 @@ class P(Prop):
                     s0, t0, c0 = last
                     if "val" in x:           # free only beyond the cut-off
                         if d[s0][t0] is not None and not within(d[s0][t0], c0, fl) and x["val"] != "none":
+                            continue
+                        # A*, heuristic not consistent: the weight of some walk (never below the minimum); which one depends
+                        # on the order in which equal priorities leave the queue
+                        if approx and d[s0][t0] is not None and x["val"] != "none" and (Fraction(x["val"]) >= d[s0][t0] or same(Fraction(x["val"]), d[s0][t0], fl)):
                             continue
                     elif len(x["vals"]) == len(y["vals"]) == len(view[0].order):
                         order = view[0].order if case.get("mut") else eff_order(case)
@@ -1928,6 +2020,12 @@ class P(Prop):
             if s0 == t or d[s0][t] is None:
                 return bad
             complete = (t0 is None or t0 == t) and within(d[s0][t], c0, fl)
+            if approx and complete:
+                # A* with a heuristic that is not consistent: which route comes out depends on the order in which equal
+                # priorities leave the queue — any real route weighing its label (a path there must be when no cut-off is given)
+                if px == "none" and c0 is None:
+                    return bad
+                complete = False
             if px == "none":
                 if complete:
                     return bad
@@ -1951,13 +2049,27 @@ class P(Prop):
             A = {(e[0], e[1]): e[2] for e in impl_out["dict"]}
             B = {(e[0], e[1]): e[2] for e in model_out["dict"]}
             free = set()
-            for op in ops:
-                if op[0] != "B" and op[4] and op[2] != "-":
+            loose = set()        # sources of A* searches whose heuristic is not consistent: entries are weights of walks, not distances
+            for k, op in enumerate(ops):
+                if op[0] in "PDF" and op[4] and op[2] != "-":
                     s0, t0 = idx(op[1]), idx(op[2])
-                    if d[s0][t0] is not None:
+                    if sett is not None and sett[k][0] == 1:
+                        # A*: the nodes recorded before the target leaves the queue are those of smaller PRIORITY g + h; ties
+                        # of priority are broken by the queue
+                        import math
+                        if regime(case, view[0], op, sett[k]) == "approx":
+                            loose.add(s0)
+                            free |= {(s0, v) for v in range(n)}
+                        elif d[s0][t0] is not None:
+                            pos_ = [view[0].pos.get(v, case["pos"][v]) for v in range(n)]
+                            f_ = lambda v: float(d[s0][v]) + float(sett[k][1]) * math.sqrt(float(hdist_sq(pos_, v, t0)))
+                            free |= {(s0, v) for v in range(n) if d[s0][v] is not None and abs(f_(v) - float(d[s0][t0])) <= 1e-9 * max(1.0, float(d[s0][t0]))}
+                    elif d[s0][t0] is not None:
                         free |= {(s0, v) for v in range(n) if d[s0][v] is not None and same(d[s0][v], d[s0][t0], fl)}
             for key, v in A.items():
-                if not (0 <= key[0] < n and 0 <= key[1] < n) or d[key[0]][key[1]] is None or not same(Fraction(v), d[key[0]][key[1]], fl):
+                if not (0 <= key[0] < n and 0 <= key[1] < n) or d[key[0]][key[1]] is None:
+                    return bad
+                if not same(Fraction(v), d[key[0]][key[1]], fl) and not (key[0] in loose and Fraction(v) >= d[key[0]][key[1]]):
                     return bad
             if any(key not in free for key in set(A) ^ set(B)):
                 return bad
